@@ -343,7 +343,7 @@ class TreeGen:
             na = rng.randrange(0, 3)
             nk = rng.randrange(0, 3)
             kw = rng.sample(['kw_b', 'kw_a', 'z', 'alpha'], nk)
-            return D('partial', [D('tuple', kids(na)), D('dict', list(zip(kw, kids(nk))), keystyle='str')], cls=optree.functools.partial)
+            return D('partial', [D('tuple', kids(na)), D('dict', list(zip(kw, kids(nk))), keystyle='kw')], cls=optree.functools.partial)
         raise AssertionError(k)
 
     def tree(self, size_budget=24):
@@ -745,7 +745,8 @@ def breaking_edit(desc: D, rng):  # noqa: C901
                 return out, e
             if e == 'arity+' and node.k in ('tuple', 'list', 'deque', 'dict', 'odict'):
                 if node.k in DICTS:
-                    node.items.append((('extra-key', rng.randrange(1000)), D('leaf', meta='L')))
+                    newk = f'extra_key_{rng.randrange(1000)}' if node.keystyle == 'kw' else ('extra-key', rng.randrange(1000))
+                    node.items.append((newk, D('leaf', meta='L')))
                 else:
                     node.items.append(D('leaf', meta='L'))
                     if node.k == 'deque' and node.meta is not None:
@@ -756,7 +757,8 @@ def breaking_edit(desc: D, rng):  # noqa: C901
                 return out, e
             if e == 'key' and node.k in DICTS and node.items:
                 i = rng.randrange(len(node.items))
-                node.items[i] = (('renamed', rng.randrange(1000)), node.items[i][1])
+                newk = f'renamed_{rng.randrange(1000)}' if node.keystyle == 'kw' else ('renamed', rng.randrange(1000))
+                node.items[i] = (newk, node.items[i][1])
                 return out, e
             if e == 'ntclass' and node.k == 'nt' and node.cls in (U.Point, U.PointSub, U.PointMeth):
                 node.cls = rng.choice([c for c in (U.Point, U.PointSub, U.PointMeth) if c is not node.cls])
@@ -764,7 +766,7 @@ def breaking_edit(desc: D, rng):  # noqa: C901
             if e == 'meta' and node.k == 'custom' and node.cls in (U.CSeq, U.CList, U.CUser, U.CShadow, U.DCG):
                 node.meta = ('changed', rng.randrange(1000))
                 return out, e
-            if e == 'node2leaf':
+            if e == 'node2leaf' and node.k != 'partial':
                 for i, c in enumerate(node.children()):
                     if c.k not in ('leaf', 'none'):
                         node.set_child(i, D('leaf', meta='L'))
